@@ -200,6 +200,8 @@ def main(argv: list[str] | None = None) -> int:
     a = sub.add_parser("all")
     a.add_argument("--tier", default="quick")
     a.add_argument("--repo", default="/repo")
+    cal = sub.add_parser("calibrate")
+    cal.add_argument("--repo", default="/repo")
     st = sub.add_parser("selftest")
     st.add_argument("prop", nargs="?")
     st.add_argument("--repo", default="/repo")
@@ -222,6 +224,14 @@ def main(argv: list[str] | None = None) -> int:
         for p in CLAIMED:
             worst = max(worst, run_property(p, args.repo, args.tier))
         return worst
+    if args.cmd == "calibrate":
+        from .selftest import CALIB
+
+        d = Repo(args.repo).digest()
+        with open(CALIB, "w") as fh:
+            json.dump({"tree_digest": d, "note": "digest of the 22 analysed modules for which the self-test variants are calibrated"}, fh, indent=1)
+        print("calibrated for tree", d[:16])
+        return 0
     if args.cmd == "selftest":
         from .selftest import run_selftest
 
